@@ -19,7 +19,7 @@ LEVEL = "exploration"
 RULE = (
     "grid: every sequence over a 4-letter alphabet up to length L x 8 documented enzymes x missed cleavages 0..3 x "
     "all 1<=min<=max<=7 x clip x semi; draws: every sequence of length L+1..M with k seeded parameter draws; "
-    "long: random sequences to length 300. Non-trivial = the expected digest is non-empty and the sequence has an "
+    "long: random sequences to length 300; flags: case-insensitive compiled patterns interleaved with plain strings of the same text in one process. Non-trivial = the expected digest is non-empty and the sequence has an "
     "interior cleavage site; distinct = distinct (sequence, enzyme, parameters)."
 )
 ASSUMPTIONS = [
@@ -117,11 +117,13 @@ def plan(seed, tier):
                           "cost": 4 ** L / parts / 100})
     for i in range(16 if tier == "quick" else 800):
         cases.append({"class": "long", "index": i, "reps": 150, "cost": 5})
+    for i in range(4 if tier == "quick" else 40):
+        cases.append({"class": "flags", "index": i, "reps": 200, "cost": 2})
     cases.append({"class": "probe_min0", "cost": 1})
     return cases
 
 
-MANDATORY_CLASSES = ["grid", "draws", "long"]
+MANDATORY_CLASSES = ["grid", "draws", "long", "flags"]
 
 
 def _digest():
@@ -266,6 +268,42 @@ def run_long(case):
     return res
 
 
+def run_flags(case):
+    """Compiled patterns carrying flags, interleaved in one process with plain strings of the same text: a
+    case-insensitive lower-case pattern cleaves like its upper-case twin, the plain lower-case string cleaves nowhere."""
+    digest = _digest()
+    rng = core.seed_seq(case["seed"], "C17", "flags", case["index"])
+    res = Result(case, key=f"flags/{case['seed']}/{case['index']}")
+    enzs = [e for e in ENZYMES if e not in (".(?=K)", ".(?=D)")]
+    evals = nt = 0
+    for rep in range(case["reps"]):
+        enz = enzs[int(rng.integers(0, len(enzs)))]
+        alpha = ENZYMES[enz][1] + "GLSTV"
+        L = int(rng.integers(1, 40))
+        seq = "".join(rng.choice(list(alpha), size=L))
+        low = enz.lower()
+        params = _draw(rng)
+        form = int(rng.integers(0, 3))
+        if form == 0:      # flagged compiled pattern: behaves like the upper-case enzyme
+            sites = sites_ref(seq, enz)
+            got, req = _judge(res, digest, seq, re.compile(low, re.IGNORECASE), sites, params)
+        elif form == 1:    # plain lower-case string on an upper-case sequence: no cleavage site at all
+            sites = [0, len(seq)] if len(seq) else [0]
+            got, req = _judge(res, digest, seq, low, sorted(set(sites)), params)
+        else:              # the ordinary upper-case string
+            sites = sites_ref(seq, enz)
+            got, req = _judge(res, digest, seq, enz, sites, params)
+        evals += 1
+        if req:
+            nt += 1
+        if len(res["violations"]) > 5:
+            break
+    res["evals"] = evals
+    res["distinct_n"] = nt
+    res["nontrivial"] = nt > 0
+    return res
+
+
 def run_probe(case):
     digest = _digest()
     res = Result(case, status="probe")
@@ -275,4 +313,4 @@ def run_probe(case):
 
 
 def run_case(case):
-    return {"grid": run_grid, "draws": run_draws, "long": run_long, "probe_min0": run_probe}[case["class"]](case)
+    return {"grid": run_grid, "draws": run_draws, "long": run_long, "flags": run_flags, "probe_min0": run_probe}[case["class"]](case)
